@@ -242,9 +242,51 @@ func runPedersen(t *core.Tape, tier string, info *core.RunInfo, protocol bool) *
 				budgetOld--
 			}
 		}
+		// scenario bias: TWO senders of conflicting bundles in one session, with re-deliveries
+		// (the Protocol's packet sets keep a list of evicted senders; seed C11e broke the lookup
+		// for lists that are not in ascending order, which takes two evictions in descending order
+		// and a later duplicate)
+		pair := map[int]bool{}
+		if protocol && !w.reshare && forced < 0 && budgetOld >= 2 && budgetNew >= 2 && (!w.fast || kfGate) && t.Bool("cfg.scn", 400) {
+			perm := t.Perm("cfg.scn", len(w.parties))
+			kind := []string{"deal-equivocate", "resp-conflicting"}[t.Intn("cfg.scn", 2)]
+			for _, k := range perm[:2] {
+				p := w.parties[k]
+				p.faulty, p.beh = "byz", map[string]bool{kind: true}
+				pair[k] = true
+				budgetOld--
+				budgetNew--
+			}
+			if w.dupPm < 600 {
+				w.dupPm = 600
+			}
+		}
+		// scenario bias: in a resharing whose new threshold exceeds the old one, between old-t and
+		// new-t - 1 new holders complain falsely (seed C11d: the eviction bound of the response phase
+		// used the OLD threshold, so honest dealers were evicted by fewer than t complaints)
+		if w.reshare && forced < 0 && w.newT > w.oldT && budgetNew >= w.oldT && t.Bool("cfg.scn2", 400) {
+			kmax := budgetNew
+			if kmax > w.newT-1 {
+				kmax = w.newT - 1
+			}
+			want := w.oldT + t.Intn("cfg.scn2", kmax-w.oldT+1)
+			for _, k := range t.Perm("cfg.scn2", len(w.parties)) {
+				p := w.parties[k]
+				if want == 0 || !p.inNew() || (p.inOld() && budgetOld == 0) {
+					continue
+				}
+				p.faulty, p.beh = "byz", map[string]bool{"resp-false-complaint": true}
+				pair[k] = true
+				budgetNew--
+				if p.inOld() {
+					budgetOld--
+				}
+				want--
+			}
+		}
 		for _, k := range t.Perm("cfg.faulty", len(w.parties)) {
 			p := w.parties[k]
-			if k == forced || !t.Bool("cfg.faulty", 500) {
+			if k == forced || pair[k] || !t.Bool("cfg.faulty", 500) {
 				continue
 			}
 			if (p.inOld() && budgetOld == 0) || (p.inNew() && budgetNew == 0) {
